@@ -10,6 +10,10 @@ ID=${1:?property id}; TIER=${2:-quick}; FILE=${3:-}
 mkdir -p bin evidence replay
 H=harness
 cp -f "$VERIF_REPO/go.sum" $H/go.sum 2>/dev/null
+if [ "$VERIF_REPO" != /repo ]; then
+  # a snapshot of the repository (vp run --with-repo): point the module at it
+  ( cd $H && go mod edit -replace github.com/invopop/gobl="$VERIF_REPO" )
+fi
 build() { # build <out> <extra flags…>
   local out=$1; shift
   ( cd $H && go build -tags verif "$@" -o ../bin/$out ./cmd/vcheck ) 2> bin/.build.$out.log
